@@ -135,6 +135,11 @@ class Monitor:
                     typ, mid = (b[0] >> 4) & 3, (b[2] << 8) | b[3]
                     if typ in (2, 3):
                         s.queued.discard(mid)
+                    if typ == 3 and mid in s.notif_mids:
+                        # coap_cancel(): everything still queued under that token goes too
+                        tk = s.notif_mids[mid]
+                        for q in [q for q in s.queued if s.notif_mids.get(q) == tk]:
+                            s.queued.discard(q)
                     if typ == 3 and mid in s.notif_mids and s.last_notif.get(
                             s.notif_mids[mid]) == mid:
                         # a Reset naming the most recent notification of that observation
@@ -175,6 +180,12 @@ class Monitor:
             s = self.live.get(ev["sess"])
             if s:
                 s.queued.discard(ev.get("cbmid"))
+                # a notification that was given up takes the observer - and what else is
+                # queued under its token - with it (coap_cancel by token, no further NACK)
+                tk = s.notif_mids.get(ev.get("cbmid"))
+                if tk is not None:
+                    for q in [q for q in s.queued if s.notif_mids.get(q) == tk]:
+                        s.queued.discard(q)
                 drop_obs(s, ev.get("tok"))
 
     def _oldest_idle(self, exclude, family=None):
@@ -265,9 +276,14 @@ def scenario(exe, r, run, stats, witness):
     sim.cmd("res 0 %s body=fixed:70" % b"p".hex())
     sim.cmd("res 0 %s body=counter obs=1" % b"o".hex())
     sim.cmd("res 0 %s body=counter obs=1" % b"q".hex())
+    sim.cmd("res 0 %s body=counter obs=1 flags=2" % b"c".hex())     # Confirmable notifications
+    nstart = r.choice([1, 1, 2, 3])
+    if nstart > 1:
+        sim.cmd("ctx 0 srv_nstart=%d" % nstart)
+    pending_notifs = {}
     sim.cmd("res 0 %s body=fixed:73 sep=%d" % (b"s".hex(), r.choice([200, 5000])))
     sim.cmd("res 0 %s body=fixed:72 sref=1" % b"r".hex())
-    silent = set(i for i in range(npeers) if r.random() < 0.1)
+    silent = set(i for i in range(npeers) if r.random() < 0.2)
 
     rst_next = set()
 
@@ -287,6 +303,11 @@ def scenario(exe, r, run, stats, witness):
                     pass
             if typ == 0 and i not in silent:
                 sm.inject(to, frm, bytes([0x60, 0, mid >> 8, mid & 255]), 2)
+            elif typ == 0 and data[1] == 0x45:
+                # a silent peer remembers the Confirmable notifications it left unanswered
+                lst = pending_notifs.setdefault(i, [])
+                if mid not in lst:
+                    lst.append(mid)
         return peer
 
     for i in range(npeers):
@@ -317,10 +338,12 @@ def scenario(exe, r, run, stats, witness):
         if x < 0.45:
             request(i, r.choice([b"p", b"p", b"r", b"s", b"nope"]), typ=r.choice([0, 0, 1]))
         elif x < 0.58:
-            pth = r.choice([b"o", b"o", b"q"])
+            pth = r.choice([b"o", b"o", b"q", b"c", b"c"])
             obs_tokens[(i, pth)] = request(i, pth, observe=0)
         elif x < 0.68:
-            sim.cmd("notify 0 %s" % r.choice(["o", "o", "q"]))
+            sim.cmd("notify 0 %s" % r.choice(["o", "o", "q", "c", "c"]))
+            if r.random() < 0.4:
+                sim.cmd("notify 0 c")      # a second one while the first may be unanswered
         elif x < 0.74:
             sim.cmd("apprelease 0 all")
             for s in mon.live.values():
@@ -338,6 +361,15 @@ def scenario(exe, r, run, stats, witness):
                 drop_obs(mon.live[sid], m["token"].hex())
         elif x < 0.86:
             rst_next.add(i)
+        elif x < 0.93 and pending_notifs:
+            # a silent peer resets the OLDEST notification it left unanswered (others with the
+            # same token may be in flight behind it)
+            j = r.choice(sorted(pending_notifs))
+            lst = pending_notifs[j]
+            if lst:
+                mid = lst.pop(0)
+                ep = EP6 if peer_addr(j).startswith("[") else EP4
+                sim.inject(peer_addr(j), ep, bytes([0x70, 0, mid >> 8, mid & 255]))
         else:
             pass
         dt = r.choice(tj) if r.random() < 0.35 else r.choice([3, 10, 50])
